@@ -85,7 +85,7 @@ function firstDiffField (a, b) {
 module.exports = {
   id: 'C16',
   level: 'exploration',
-  rule: 'random call histories (20-200 calls over 5-30 distinct requests: corpus, catalogue, random, mutated/syntax-error, several sourceMappingURL comments, many literals, not-modified, refused name collision) on 1-4 rewriter instances per configuration are recorded at the harness boundary; an offline checker requires every response to equal (content bytes, metrics, literal set, error text) the response to the same request issued alone in a fresh process, on another instance, and in replays of the whole history in other processes (fresh hash seeds / ASLR). With the prefix omitted equality is modulo the prefix and the prefix must be constant per instance. A memcheck run (track-origins) over a history looks for uninitialised-value use. distinct_nontrivial = distinct (request, position-in-history) observations compared.',
+  rule: 'random call histories (20-200 calls over 5-30 distinct requests: corpus, catalogue, random, mutated/syntax-error, several sourceMappingURL comments, many literals, not-modified, refused name collision) on 1-4 rewriter instances per configuration, in half of the histories with a logger installed (process-wide, levels OFF..TRACE) at a random point, are recorded at the harness boundary; an offline checker requires every response to equal (content bytes, metrics, literal set, error text) the response to the same request issued alone in a fresh process, on another instance, and in replays of the whole history in other processes (fresh hash seeds / ASLR). With the prefix omitted equality is modulo the prefix and the prefix must be constant per instance. A memcheck run (track-origins) over a history looks for uninitialised-value use. Package layer: call histories (8-28 calls) through the real main.js on shared CacheRewriter / NonCacheRewriter instances over paths that share base names and carry byte-identical code; every response (content, metrics, literal set, error) must equal the response to the same call on a freshly loaded package instance. distinct_nontrivial = distinct (request, position-in-history) observations compared.',
   assumptions: ['literal reports are compared as sets (their order is unspecified)', 'native build: hash seeds and ASLR vary between processes as they do between wasm instantiations only partially; same-process instances share the allocator'],
   plan (ctx) {
     const n = ctx.tier === 'thorough' ? 2000 : 128
@@ -94,12 +94,40 @@ module.exports = {
     const groups = []
     for (let i = 0; i < shards.length; i += (ctx.tier === 'thorough' ? 20 : 2)) groups.push({ kind: 'histories', streams: shards.slice(i, i + (ctx.tier === 'thorough' ? 20 : 2)).map(s => s.stream) })
     groups.push({ kind: 'memcheck', calls: ctx.tier === 'thorough' ? 1500 : 120 })
+    // the same question one layer up: histories through the real main.js on shared CacheRewriter / NonCacheRewriter instances
+    for (let k = 0, n = ctx.tier === 'thorough' ? 128 : 14; k < n; k++) groups.push({ kind: 'package', stream: 7000 + k, histories: 3 })
     return groups
   },
   minEvaluations (ctx) { return ctx.tier === 'thorough' ? 50000 : 2000 },
   async runShard (spec, ctx) {
     const rep = { evaluations: 0, distinct: [], violations: [], inconclusive: [], samples: [], counters: {}, sets: { request_kinds: [] } }
     const bump = (k, n = 1) => { rep.counters[k] = (rep.counters[k] || 0) + n }
+    if (spec.kind === 'package') {
+      const PH = require('../lib/pkghistory')
+      for (let h = 0; h < spec.histories; h++) {
+        const rng = new Rng(ctx.seed, 'c16pkg', spec.stream, h)
+        let hist
+        try { hist = PH.runHistory(rng, `c16_${spec.stream}_${h}`) } catch (e) { rep.inconclusive.push({ reason: 'package-history-failed', detail: String(e && e.message).slice(0, 200) }); continue }
+        bump('package_histories'); bump('package_calls', hist.calls.length)
+        const shape = hist.calls.map(c => `${c.kind}@${c.file.split('/').slice(-3).join('/')}`)
+        const seen = new Set()
+        for (const c of hist.calls) {
+          rep.evaluations++
+          rep.distinct.push(hashStr(spec.stream + ':' + h + ':' + c.step))
+          rep.sets.request_kinds.push('package:' + c.kind + '/' + c.cfgName)
+          const a = PH.fingerprint(c.fresh); const b = PH.fingerprint(c.response)
+          if (a !== b) {
+            const field = firstDiffField(a, b)
+            const sig = `package-history-dependence:${field}:${c.kind}`
+            if (seen.has(sig)) continue
+            seen.add(sig)
+            rep.violations.push({ sig, what: `through main.js (${c.rewriter}, config ${c.cfgName}): call #${c.step} of history [${shape.join(', ')}] for ${c.file} differs from the same call on a freshly loaded package: ${field}: ${clip(a, 260)} VS ${clip(b, 260)}`, witness: { packageHistory: hist.calls.map(x => ({ kind: x.kind, file: x.file, code: x.code, cfgName: x.cfgName, rewriter: x.rewriter })), step: c.step } })
+          }
+        }
+        if (rep.samples.length < 1) rep.samples.push({ package_history: shape })
+      }
+      return rep
+    }
     const files = corpus.list()
     const streams = spec.kind === 'memcheck' ? [9999] : spec.streams
     for (const stream of streams) {
@@ -116,7 +144,12 @@ module.exports = {
       const instKey = (cn, j) => cn + '#' + j
       const made = new Map()
       const callIdx = []
+      // some rewriter of the process installs a logger at some point (setLogger is process-wide): results must not depend on it
+      const loggerAt = rng.bool(0.5) ? rng.int(Math.max(1, Math.floor(len / 2))) : -1
+      const loggerLevel = rng.pick(['DEBUG', 'DEBUG', 'TRACE', 'ERROR', 'OFF'])
+      let step = 0
       for (const [ri, ii] of hist) {
+        if (step++ === loggerAt) lines.push({ op: 'set_logger', level: loggerLevel })
         const r = reqs[ri]
         const key = instKey(r.cfgName, ii)
         if (!made.has(key)) { made.set(key, lines.length); lines.push({ op: 'new', rw: key, config: r.config }) }
